@@ -96,6 +96,18 @@ func (d *Ar) Next() (*ArEntry, error) {
 		return nil, err
 	}
 
+	if entry.Size > 0 {
+		/* The header promises entry.Size bytes of data; make sure the
+		 * archive really holds them before handing out a reader. */
+		last := make([]byte, 1)
+		if n, err := d.in.ReadAt(last, d.offset+int64(count)+entry.Size-1); n != 1 {
+			if err == nil || err == io.EOF {
+				err = io.ErrUnexpectedEOF
+			}
+			return nil, fmt.Errorf("Truncated archive member '%s': %w", entry.Name, err)
+		}
+	}
+
 	entry.Data = io.NewSectionReader(d.in, d.offset+int64(count), entry.Size)
 	d.offset += int64(count) + entry.Size + (entry.Size % 2)
 
@@ -143,7 +155,7 @@ func parseArEntry(line []byte) (*ArEntry, error) {
 		return nil, fmt.Errorf("Malformed file entry line length")
 	}
 
-	if line[58] != 0x60 && line[59] != 0x0A {
+	if line[58] != 0x60 || line[59] != 0x0A {
 		return nil, fmt.Errorf("Malformed file entry line endings")
 	}
 
@@ -168,6 +180,10 @@ func parseArEntry(line []byte) (*ArEntry, error) {
 			return nil, fmt.Errorf("failed to parse entry %s: %w", target.Name, err)
 		}
 		*target.Pointer = intValue
+	}
+
+	if entry.Size < 0 {
+		return nil, fmt.Errorf("Malformed file entry: negative size %d", entry.Size)
 	}
 
 	return &entry, nil
